@@ -72,26 +72,31 @@ Theorem gen_branch_head_agrees : forall u orc upd xs s t, gh_inv xs -> upd_ok u 
       end
   end.
 Proof.
+  (* robust against a reshuffled condition: the three facts it is made of are decided first, then both
+     sides compute *)
   intros u orc upd xs s t I U. unfold B.branch_head, branch_pre, update_sel, x_is_pass.
-  rewrite gen_get_node_output_type_agrees.
-  assert (E : rt_is_nil (out_ty (x_st xs) s) = match out_ty (x_st xs) s with None => true | Some _ => false end) by reflexivity.
-  rewrite E. simpl orb.
-  destruct (negb (N.eqb s kSTART) && is_pass (x_st xs) s && match out_ty (x_st xs) s with None => true | Some _ => false end) eqn:C.
-  - set (xs3 := x_set_gh (x_set_out (x_set_in xs s (Some t)) s (Some t)) s (gh_for_pred (B.branch_gh t))).
-    assert (S3 : x_st xs3 = set_pass_ty (x_st xs) s t) by apply typing_direct_is_set_pass_ty.
-    assert (I3 : gh_inv xs3).
-    { eapply gh_inv_typing with (t := t); [exact I | apply typing_direct_is_set_pass_ty | reflexivity | reflexivity | reflexivity]. }
-    specialize (U xs3 I3). rewrite S3 in U. destruct (upd xs3) as [xs4|].
-    + destruct U as [U1 I4]. rewrite U1. rewrite gen_get_node_output_type_agrees.
-      destruct (check_assignable u (out_ty (x_st xs4) s) (Some t)) eqn:K; simpl; rewrite ?K.
-      * reflexivity.
-      * split; [reflexivity|]. split; [exact I4|]. split; [discriminate | reflexivity].
-      * split; [reflexivity|]. split; [exact I4|]. split; [discriminate | reflexivity].
-    + destruct (update_tvm u orc (set_pass_ty (x_st xs) s t)) eqn:K; auto. exfalso. eapply U. reflexivity.
-  - destruct (check_assignable u (out_ty (x_st xs) s) (Some t)) eqn:K; simpl.
-    + reflexivity.
-    + rewrite ?K. split; [reflexivity|]. split; [exact I|]. split; [discriminate | reflexivity].
-    + rewrite ?K. split; [reflexivity|]. split; [exact I|]. split; [discriminate | reflexivity].
+  rewrite ?gen_get_node_output_type_agrees.
+  destruct (N.eqb s kSTART) eqn:E1; destruct (is_pass (x_st xs) s) eqn:E2;
+    destruct (out_ty (x_st xs) s) as [a|] eqn:E3; cbn [negb andb orb rt_is_nil];
+    first
+      [ (* the start node is typed by the branch *)
+        match goal with |- context [upd ?X] => set (xs3 := X) end;
+        assert (S3 : x_st xs3 = set_pass_ty (x_st xs) s t) by apply typing_direct_is_set_pass_ty;
+        assert (I3 : gh_inv xs3)
+          by (eapply gh_inv_typing with (t := t); [exact I | apply typing_direct_is_set_pass_ty | reflexivity | reflexivity | reflexivity]);
+        specialize (U xs3 I3); rewrite S3 in U; destruct (upd xs3) as [xs4|];
+        [ destruct U as [U1 I4]; rewrite U1; rewrite ?gen_get_node_output_type_agrees;
+          destruct (check_assignable u (out_ty (x_st xs4) s) (Some t)) eqn:K; simpl; rewrite ?K;
+          [ reflexivity
+          | split; [reflexivity|]; split; [exact I4|]; split; [discriminate | reflexivity]
+          | split; [reflexivity|]; split; [exact I4|]; split; [discriminate | reflexivity] ]
+        | destruct (update_tvm u orc (set_pass_ty (x_st xs) s t)) eqn:K; auto; exfalso; eapply U; reflexivity ]
+      | (* its type is kept *)
+        match goal with |- context [check_assignable u ?A (Some t)] => destruct (check_assignable u A (Some t)) eqn:K end;
+        simpl; rewrite ?E3, ?K;
+        [ reflexivity
+        | split; [reflexivity|]; split; [exact I|]; split; [discriminate | reflexivity]
+        | split; [reflexivity|]; split; [exact I|]; split; [discriminate | reflexivity] ] ].
 Qed.
 
 Lemma gh_inv_frame : forall xs xs', gh_inv xs ->
@@ -132,21 +137,15 @@ Proof.
   assert (F : forall xs2 xs3, gh_inv xs2 -> x_gh xs3 = x_gh xs2 -> x_st xs3 = mark_ends (x_st xs2) s e -> gh_inv xs3).
   { intros xs2 xs3 I2 G3 S3. apply (gh_inv_frame xs2); auto; rewrite S3; reflexivity. }
   unfold B.branch_end, x_has_node.
-  destruct (has_node (x_st xs) e) eqn:Hn; simpl negb; cbv iota.
-  - destruct (upd (x_add_tvm xs s e)) as [xs2|].
-    + destruct U as [U1 I2].
-      pose proof (marks_are_mark_ends (x_st xs2) s e) as M. simpl in M.
-      destruct (N.eqb s kSTART), (N.eqb e kEND); (split; [reflexivity|]; split; [reflexivity|];
-        exists (x_st xs2); split; [exact U1|]; split; [exact M | apply (F xs2); [exact I2 | reflexivity | exact M]]).
-    + right. exact U.
-  - destruct (N.eqb e kEND) eqn:He; simpl negb; cbv iota.
-    + destruct (upd (x_add_tvm xs s e)) as [xs2|].
-      * destruct U as [U1 I2].
-        pose proof (marks_are_mark_ends (x_st xs2) s e) as M. simpl in M. rewrite He in M.
-        destruct (N.eqb s kSTART); (split; [reflexivity|]; split; [reflexivity|];
-          exists (x_st xs2); split; [exact U1|]; split; [exact M | apply (F xs2); [exact I2 | reflexivity | exact M]]).
-      * right. exact U.
-    + left. reflexivity.
+  pose proof (marks_are_mark_ends) as MM.
+  destruct (has_node (x_st xs) e) eqn:Hn; destruct (N.eqb e kEND) eqn:He; cbn [negb andb orb];
+    try (left; reflexivity);
+    (destruct (upd (x_add_tvm xs s e)) as [xs2|];
+     [ destruct U as [U1 I2];
+       pose proof (MM (x_st xs2) s e) as M; simpl in M; rewrite ?He in M;
+       destruct (N.eqb s kSTART); (split; [reflexivity|]; split; [reflexivity|];
+         exists (x_st xs2); split; [exact U1|]; split; [exact M | apply (F xs2); [exact I2 | reflexivity | exact M]])
+     | right; exact U ]).
 Qed.
 
 (* ------------------------------------------------------------------ the loop over branch.endNodes *)
@@ -214,21 +213,21 @@ Proof.
   intros u orc upd xs s t ends choice I U0 Uj. unfold B.add_branch, add_branch, x_has_node.
   destruct (g_err (x_st xs)); [reflexivity|].
   destruct (g_compiled (x_st xs)); [reflexivity|].
-  destruct (N.eqb s kEND); [reflexivity|].
-  destruct (negb (has_node (x_st xs) s) && negb (N.eqb s kSTART)); [reflexivity|].
-  destruct (Nat.eqb (List.length ends) 1); [reflexivity|].
-  pose proof (gen_branch_head_agrees u (fun n => orc 0%nat (S n)) (upd 0%nat) xs s t I U0) as H.
-  destruct (B.branch_head u (upd 0%nat) xs s t) as [xs1 conv|].
-  - destruct H as [H1 [I1 [H2 H3]]]. rewrite H1. cbn [negb].
-    rewrite fold_ends_is_xb_ends.
-    pose proof (gen_branch_ends_agrees u orc upd (order_keys (orc 0%nat 0%nat) ends) 0 xs1 s I1 Uj) as E.
-    destruct (xb_ends upd 0 xs1 s (order_keys (orc 0%nat 0%nat) ends)) as [xs2|].
-    + destruct E as [E1 I2]. subst conv. rewrite conv_tys_map_Some.
-      destruct (check_assignable u (out_ty (x_st xs1) s) (Some t)) eqn:K; [congruence | |];
-        rewrite E1; (split; [reflexivity | apply (gh_inv_frame xs2); auto]).
-    + destruct (check_assignable u (out_ty (x_st xs1) s) (Some t)) eqn:K; [congruence | |]; rewrite E; reflexivity.
-  - destruct (branch_pre u false false false (fun n => orc 0%nat (S n)) (x_st xs) s t) as [st1| |]; try reflexivity.
-    rewrite H. reflexivity.
+  destruct (N.eqb s kEND); cbn [negb andb orb]; [reflexivity|].
+  destruct (has_node (x_st xs) s); destruct (N.eqb s kSTART); cbn [negb andb orb]; try reflexivity;
+  (destruct (Nat.eqb (List.length ends) 1); [reflexivity|]);
+  (pose proof (gen_branch_head_agrees u (fun n => orc 0%nat (S n)) (upd 0%nat) xs s t I U0) as H;
+   destruct (B.branch_head u (upd 0%nat) xs s t) as [xs1 conv|];
+   [ destruct H as [H1 [I1 [H2 H3]]]; rewrite H1; cbn [negb];
+     rewrite fold_ends_is_xb_ends;
+     pose proof (gen_branch_ends_agrees u orc upd (order_keys (orc 0%nat 0%nat) ends) 0 xs1 s I1 Uj) as E;
+     destruct (xb_ends upd 0 xs1 s (order_keys (orc 0%nat 0%nat) ends)) as [xs2|];
+     [ destruct E as [E1 I2]; subst conv; rewrite conv_tys_map_Some;
+       destruct (check_assignable u (out_ty (x_st xs1) s) (Some t)) eqn:K; [congruence | |];
+         rewrite E1; (split; [reflexivity | apply (gh_inv_frame xs2); auto])
+     | destruct (check_assignable u (out_ty (x_st xs1) s) (Some t)) eqn:K; [congruence | |]; rewrite E; reflexivity ]
+   | destruct (branch_pre u false false false (fun n => orc 0%nat (S n)) (x_st xs) s t) as [st1| |]; try reflexivity;
+     rewrite H; reflexivity ]).
 Qed.
 
 (* ------------------------------------------------------------------ non-vacuity *)
